@@ -19,11 +19,12 @@ ID = 'C17'
 LEVEL = 'exploration'
 RULE = (
     'Function level: every combination of 12 specific-yield sets (10 spline '
-    'knot sets, one of them refused as descending, 2 PEATCLSM sets) x 7 '
-    'level grids (inside the knot range, '
+    'knot sets, one of them refused as descending, 2 PEATCLSM sets) x 9 '
+    'level grids (inside the knot range, 1e5 mm above and below it, '
     'straddling either end, entirely below, entirely above, wide, single '
     'cell) x {grid, grid with every cell halved, grid with every cell cut in '
-    'three} x 3 requested means, and every set x every sub-grid (>= 2 '
+    'three} x 3 requested means (whole-number grids also as int64 and '
+    'float32 arrays), and every set x every sub-grid (>= 2 '
     'levels) of a 10-level (thorough: 13-level) menu reaching below, into '
     'and above every knot range, through the real compute_rise_curve.  '
     'Oracle: W[j] - W[i] = Gauss-Legendre integral of the callable itself '
@@ -49,6 +50,10 @@ GRIDS = {
     'wide': [-1200.0, -100.0, 0.0, 15.0, 100.0, 1300.0],
     'single-cell': [18.0, 23.5],
     'fine': [18.0 + 0.25 * i for i in range(24)],
+    # 1 mm and 0.25 mm cells a hundred metres from the surface: a cell is
+    # 1e-5 .. 2.5e-6 of its level
+    'far-above': [100000.0 + i for i in range(6)],
+    'far-below': [-100003.0 + 0.25 * i for i in range(9)],
 }
 MEANS = [0.0, 37.5, -1234.5]
 REFINE = [1, 2, 3]
@@ -68,21 +73,31 @@ def decoy():
 
 
 def BOUND(tier):
-    return ('%d Sy sets x 7 grids x 3 refinements x 3 means and x every '
+    return ('%d Sy sets x %d grids x 3 refinements x 3 means and x every '
             'sub-grid of a %d-level menu (%d grids) at function level; %d '
             'datasets x %d parameter files x 2 output forms at command level'
-            % (len(SY_SETS), len(MENU[tier]),
+            % (len(SY_SETS), len(GRIDS), len(MENU[tier]),
                2 ** len(MENU[tier]) - len(MENU[tier]) - 1,
                len(simdata.WORDS), len(SY_SETS)))
 
 
 def spaces(tier):
     fn = list(itertools.product(SY_SETS, GRIDS, REFINE, MEANS))
+    # the same levels handed over as an integer array / a float32 array
+    # (grids whose levels are whole numbers: what a data file with an
+    # integer-typed level column yields)
+    fn += [(sy, grid, 1, 37.5, dtype) for sy in SY_SETS
+           for grid in GRIDS if all(float(z).is_integer()
+                                    for z in GRIDS[grid])
+           for dtype in ('int64', 'float32')]
 
     def decode(i):
-        sy, grid, r, mean = fn[i]
-        return {'kind': 'fn', 'sy': sy, 'grid': grid, 'refine': r,
+        sy, grid, r, mean = fn[i][:4]
+        case = {'kind': 'fn', 'sy': sy, 'grid': grid, 'refine': r,
                 'mean': mean}
+        if len(fn[i]) > 4:
+            case['dtype'] = fn[i][4]
+        return case
     cli = list(itertools.product(range(len(simdata.WORDS)), SY_SETS,
                                  (False, True)))
 
@@ -145,7 +160,8 @@ def run_fn(case):
     viol = []
     try:
         W = [float(x) for x in sim_mod.compute_rise_curve(
-            sy, np.array(grid), mean_storage_mm=case['mean'])]
+            sy, np.array(grid, dtype=case.get('dtype', 'float64')),
+            mean_storage_mm=case['mean'])]
     except Exception as exc:  # pylint: disable=broad-except
         return Result(viol=[('crash:' + cs.exc_site(exc), repr(exc)[:200])],
                       nontrivial=True, outcome='exc')
